@@ -257,6 +257,11 @@ mutate(vh_rng *rg, struct rt_desc *d)
     }
 }
 
+/* a description handed in by the caller instead of a generated one (judged as it is), and the key its refusal is
+ * filed under */
+static const struct rt_desc *forced_desc;
+static const char *success_key = "expected=success";
+
 static void
 one_desc(uint64_t idx, uint64_t k, vh_rng *rg)
 {
@@ -264,15 +269,17 @@ one_desc(uint64_t idx, uint64_t k, vh_rng *rg)
     struct rt_desc d;
     /* the first descriptions of every unit are the curated layouts (register-less areas and reserved windows in
      * every position), the rest comes from the seeded family */
-    if (k >= RT_NCURATED || !rt_gen_curated(rg, (unsigned)k, &d, 1))
+    if (forced_desc)
+        d = *forced_desc;
+    else if (k >= RT_NCURATED || !rt_gen_curated(rg, (unsigned)k, &d, 1))
         rt_gen_wellformed(rg, &d, 1);
-    int mutated = !vh_chance(rg, 3, 10);
+    int mutated = !forced_desc && !vh_chance(rg, 3, 10);
     if (mutated)
         mutate(rg, &d);
     /* one time in four the table object has a past: it was initialised successfully with another description
      * and is now pointed at the new one and initialised again (flags and counts are what the first
      * initialisation left behind) */
-    int reinit = vh_chance(rg, 1, 4);
+    int reinit = !forced_desc && vh_chance(rg, 1, 4);
     RegisterTable past;
     memset(&past, 0, sizeof past);
     if (reinit) {
@@ -331,7 +338,9 @@ one_desc(uint64_t idx, uint64_t k, vh_rng *rg)
     if (nv == 0) {
         VH_COUNT("expected: success");
         if (ri.code != REG_INIT_SUCCESS) {
-            vh_fail("wellformed-refused", "expected=success", "%s: code=%s index=%u", ctx,
+            char rkey[96];
+            snprintf(rkey, sizeof rkey, "%s refusal=%s", success_key, ri.code <= 10 ? codename[ri.code] : "other");
+            vh_fail("wellformed-refused", rkey, "%s: code=%s index=%u", ctx,
                     ri.code <= 10 ? codename[ri.code] : "?", ri.pos.entry);
             return;
         }
@@ -392,6 +401,59 @@ u_descs(uint64_t idx, void *arg)
         one_desc(idx, k, &rg);
     if (idx == 0)
         vh_sample("description", "e.g. %s", rt_describe(&inst.d));
+}
+
+/* the top of the address space: the last area ends exactly at 2^32 (its last word is address 0xffffffff), with and
+ * without a register on the last words, alone or behind another area */
+static void
+u_top(uint64_t idx, void *arg)
+{
+    (void)arg;
+    vh_rng rg;
+    vh_unit_rng(&rg, "top", idx);
+    struct rt_desc d;
+    memset(&d, 0, sizeof d);
+    const uint32_t size = (uint32_t[]){ 1, 2, 4, 5, 16 }[idx % 5];
+    const int two = (int)(idx / 5) % 2, lastreg = (int)(idx / 10) % 2, custom = (int)(idx / 20) % 2;
+    d.bigendian = (int)(idx / 40) % 2;
+    if (two) {
+        d.area[0].base = 0u - size - 8u - (uint32_t)(idx % 3);
+        d.area[0].size = 8;
+        d.area[0].readable = d.area[0].writeable = d.area[0].has_write = 1;
+        d.nareas = 1;
+        struct rt_reg *g = &d.reg[d.nregs++];
+        g->type = REG_TYPE_UINT32;
+        g->addr = d.area[0].base + 3;
+        g->def.u32 = 0xcafe0001u;
+    }
+    struct rt_area *a = &d.area[d.nareas++];
+    a->base = 0u - size;
+    a->size = size;
+    a->readable = a->writeable = a->has_write = 1;
+    a->custom = custom;
+    /* a register at the start of the area (when there is room for two), and one that ends with the last word */
+    if (size >= 4) {
+        struct rt_reg *g = &d.reg[d.nregs++];
+        g->type = REG_TYPE_UINT16;
+        g->addr = a->base;
+        g->def.u16 = 0x1234;
+    }
+    if (lastreg) {
+        struct rt_reg *g = &d.reg[d.nregs++];
+        unsigned words = size >= 4 && (idx & 1) ? 2 : 1;
+        g->type = words == 2 ? REG_TYPE_SINT32 : REG_TYPE_UINT16;
+        g->addr = 0u - words;
+        if (words == 2)
+            g->def.s32 = -77;
+        else
+            g->def.u16 = 0xbeef;
+    }
+    forced_desc = &d;
+    success_key = "expected=success layout=last-area-ends-at-2^32";
+    one_desc(idx, 0, &rg);
+    forced_desc = NULL;
+    success_key = "expected=success";
+    VH_COUNT("description whose last area ends exactly at 2^32");
 }
 
 /* a table with more than 65536 registers: indices that do not fit 16 bits */
@@ -486,6 +548,9 @@ void
 harness_run(void)
 {
     vh_unit("bigtable", 0, u_bigtable, NULL);
+    for (uint64_t i = 0; i < 80; i++)
+        vh_unit("top", i, u_top, NULL);
+    vh_require("description whose last area ends exactly at 2^32");
     for (uint64_t i = 0; i < (vh_tier ? 6000u : 128u); i++)
         vh_unit("descs", i, u_descs, NULL);
     static const char *req[] = { "expected: success", "expected: no-areas", "expected: area-order",
